@@ -202,6 +202,9 @@ func checkC02(c *Ctx, r *Report, tier string) {
 	c02R5(c, r, x)
 	publishedVertexWrites(c, r, "C02.R5")
 	batchItemsProcessedOneByOne(c, r, "C02.R5")
+	sharedMapAcrossItems(c, r, "C02.R5")
+	r.Rule("C02.R6", "an update cannot turn into a deletion: every error the index's Insert can return is decided by the id-exists test of the shard map (the update path removes first and re-inserts)", 1)
+	insertFailsOnlyOnDuplicate(c, r, "C02.R6")
 	restoreCallbackDelegates(c, r, "C02.R3", "partition", "Hnsw")
 }
 
